@@ -220,6 +220,38 @@ pub fn worker_abs(w: &mut WorkerCtx) {
     if mem.verif_dump().entries.len() != dump0_entries {
         w.vio("C05 abs does-io memfs", || "abs() calls changed the Memfs state".to_string(), || J::Null);
     }
+    // no IO, continued: with the process inside a directory that no longer exists, every argument whose
+    // resolution does not involve the cwd (Memfs gives the same answer from two different cwds) still resolves
+    if w.shard == 0 {
+        let gone = format!("{}/gone", sbr);
+        std::fs::create_dir_all(&gone).expect("mkdir gone");
+        std::env::set_current_dir(&gone).expect("chdir gone");
+        std::fs::remove_dir(&gone).expect("rmdir gone");
+        let mut args: Vec<String> = toks.clone();
+        let mut buf = String::new();
+        for i in 0..count_upto(ALPHA.len() as u64, 4) {
+            nth_string(&ALPHA, i, &mut buf);
+            args.push(buf.clone());
+        }
+        for a in &args {
+            mem.set_cwd("/").expect("set_cwd");
+            let m1 = apply(&mem, &Op::Abs(a.clone()));
+            mem.set_cwd(format!("{}/a/b", sbr)).expect("set_cwd");
+            let m2 = apply(&mem, &Op::Abs(a.clone()));
+            if !(m1.ok && m2.ok && m1.val == m2.val) {
+                continue;
+            }
+            w.count("abs_with_removed_cwd", 1);
+            let od = apply(&Stdfs::new(), &Op::Abs(a.clone()));
+            if !od.ok || od.val != m1.val {
+                w.vio(
+                    &format!("C05 abs needs-the-cwd-for-a-cwd-independent-argument [{}]", shape(a)),
+                    || format!("with the process cwd removed, Stdfs::abs({:?}) gives {} although the resolution {:?} does not involve the cwd", a, od.brief(), m1.val),
+                    || J::obj([("part", J::s("abs-removed-cwd")), ("arg", J::s(a))]),
+                );
+            }
+        }
+    }
     let _ = std::env::set_current_dir("/");
     drop(sb);
     for t in ["a", "./a/../b", "/x/y/../z"] {
@@ -638,6 +670,7 @@ pub fn run(ctx: &Ctx) -> i32 {
         ("abs_successful", J::i(g.c("abs_ok"))),
         ("spelling_pairs_memfs", J::i(g.c("spelling_pairs"))),
         ("spelling_pairs_stdfs", J::i(g.c("spelling_pairs_stdfs"))),
+        ("abs_with_removed_cwd", J::i(g.c("abs_with_removed_cwd"))),
         ("deferred_builder_cases_memfs", J::i(g.c("deferred_builder_cases"))),
         ("deferred_builder_cases_stdfs", J::i(g.c("deferred_builder_cases_stdfs"))),
         ("machinery_setup_failures", J::i(g.c("machinery_setup_failures"))),
